@@ -340,6 +340,44 @@ pub fn run(p: &[String]) -> Vec<String> {
             let after = match back.get_sheet_by_name("Sheet1").unwrap().get_cell((2, 2)) { Some(c) => show(c), None => "<no cell>".to_string() };
             vec![hex(&before), hex(&after)]
         }
+        "sst_pair" => {
+            // kind text kind text : cells A1 and A2 (text | rich | rich_bold | rich2) through save + reload
+            let mut book = umya_spreadsheet::new_file();
+            {
+                let ws = book.get_sheet_by_name_mut("Sheet1").unwrap();
+                for (row, k) in [(1u32, 1usize), (2u32, 3usize)] {
+                    let (kind, text) = (unhex(&p[k]), unhex(&p[k + 1]));
+                    let c = ws.get_cell_mut((1, row));
+                    if kind == "text" { c.set_value_string(text); continue; }
+                    let chars: Vec<char> = text.chars().collect();
+                    let cut = if kind == "rich2" { (chars.len() + 1) / 2 } else { chars.len() };
+                    let parts: Vec<String> = if kind == "rich2" { vec![chars[..cut].iter().collect(), chars[cut..].iter().collect()] } else { vec![text.clone()] };
+                    let mut rt = umya_spreadsheet::RichText::default();
+                    for part in parts {
+                        let mut te = umya_spreadsheet::TextElement::default();
+                        te.set_text(part);
+                        if kind == "rich_bold" { te.get_run_properties_mut().set_bold(true); }
+                        rt.add_rich_text_elements(te);
+                    }
+                    c.set_rich_text(rt);
+                }
+            }
+            let show = |book: &umya_spreadsheet::Spreadsheet| {
+                let ws = book.get_sheet_by_name("Sheet1").unwrap();
+                (1u32..=2).map(|r| match ws.get_cell((1, r)) {
+                    None => "<no cell>".to_string(),
+                    Some(c) => match c.get_cell_value().get_raw_value() {
+                        umya_spreadsheet::structs::CellRawValue::RichText(rt) => format!("rich[{}]", rt.get_rich_text_elements().iter().map(|e| format!("{}/{}", e.get_text(), e.get_run_properties().map(|f| *f.get_bold()).unwrap_or(false))).collect::<Vec<_>>().join(",")),
+                        _ => format!("{}:{}", c.get_data_type(), c.get_value()),
+                    },
+                }).collect::<Vec<_>>().join(" ; ")
+            };
+            let before = show(&book);
+            let mut buf: Vec<u8> = Vec::new();
+            umya_spreadsheet::writer::xlsx::write_writer(&book, &mut buf).unwrap();
+            let back = umya_spreadsheet::reader::xlsx::read_reader(std::io::Cursor::new(buf), true).unwrap();
+            vec![hex(&before), hex(&show(&back))]
+        }
         // ---- C03
         "shared_formula" => {
             // formula anchor child : a real package whose sheet part carries a shared formula block, loaded by the real reader
@@ -384,12 +422,16 @@ pub fn run(p: &[String]) -> Vec<String> {
         "hyperlink_roundtrip" => {
             // n : n cells A1..An each with its own external hyperlink; save, reload, report the cells whose target changed
             let n = u(&p[1]);
+            let kinds: Vec<String> = if p.len() > 2 { unhex(&p[2]).split(',').map(|s| s.to_string()).collect() } else { vec![] };
+            let kind = |i: u32| kinds.get(i as usize - 1).map(|s| s.as_str()).unwrap_or("url").to_string();
+            let target = |i: u32| match kind(i).as_str() { "blank" => String::new(), "location" => format!("Sheet1!B{}", i), _ => format!("https://example.invalid/{}", i) };
             let mut book = umya_spreadsheet::new_file();
             let ws = book.get_sheet_by_name_mut("Sheet1").unwrap();
             for i in 1..=n {
                 let c = ws.get_cell_mut((1, i));
                 c.set_value_string(format!("link{}", i));
-                c.get_hyperlink_mut().set_url(format!("https://example.invalid/{}", i));
+                c.get_hyperlink_mut().set_url(target(i));
+                if kind(i) == "location" { c.get_hyperlink_mut().set_location(true); }
             }
             let mut buf: Vec<u8> = Vec::new();
             umya_spreadsheet::writer::xlsx::write_writer(&book, &mut buf).unwrap();
@@ -398,7 +440,7 @@ pub fn run(p: &[String]) -> Vec<String> {
             let mut wrong = vec![];
             for i in 1..=n {
                 let got = ws.get_cell((1, i)).and_then(|c| c.get_hyperlink()).map(|h| h.get_url().to_string()).unwrap_or("<none>".to_string());
-                if got != format!("https://example.invalid/{}", i) { wrong.push(format!("A{}->{}", i, got)); }
+                if got != target(i) { wrong.push(format!("A{}->{}", i, got)); }
             }
             vec![hex(&wrong.join(","))]
         }
@@ -450,6 +492,96 @@ pub fn run(p: &[String]) -> Vec<String> {
                     None => hex("no font"),
                 }
             }).collect()
+        }
+        "numfmt_roundtrip" => {
+            // code : cell A1 with this number-format code, saved and reloaded
+            let code = unhex(&p[1]);
+            let mut book = umya_spreadsheet::new_file();
+            let ws = book.get_sheet_by_name_mut("Sheet1").unwrap();
+            let c = ws.get_cell_mut((1, 1));
+            c.set_value_number(1.5);
+            c.get_style_mut().get_number_format_mut().set_format_code(code);
+            let mut buf: Vec<u8> = Vec::new();
+            umya_spreadsheet::writer::xlsx::write_writer(&book, &mut buf).unwrap();
+            let back = umya_spreadsheet::reader::xlsx::read_reader(std::io::Cursor::new(buf), true).unwrap();
+            let ws = back.get_sheet_by_name("Sheet1").unwrap();
+            vec![hex(ws.get_style((1, 1)).get_number_format().map(|f| f.get_format_code()).unwrap_or("<none>"))]
+        }
+        "numfmt_intern" => {
+            // id_a code_a id_b code_b id_s code_s : a loaded workbook whose table holds code_a/code_b under ids 176/177, and a style
+            // whose custom format carries id_s (taken from another loaded workbook, or fresh for 999999) given to a third cell
+            let reload = |book: &umya_spreadsheet::Spreadsheet| {
+                let mut buf: Vec<u8> = Vec::new();
+                umya_spreadsheet::writer::xlsx::write_writer(book, &mut buf).unwrap();
+                umya_spreadsheet::reader::xlsx::read_reader(std::io::Cursor::new(buf), true).unwrap()
+            };
+            let (ia, ca, ib, cb, is, cs) = (u(&p[1]), unhex(&p[2]), u(&p[3]), unhex(&p[4]), u(&p[5]), unhex(&p[6]));
+            let mut x = umya_spreadsheet::new_file();
+            {
+                let ws = x.get_sheet_by_name_mut("Sheet1").unwrap();
+                for (id, code) in [(ia, &ca), (ib, &cb)] {
+                    let c = ws.get_cell_mut((1, id - 175));
+                    c.set_value_number(1.5);
+                    c.get_style_mut().get_number_format_mut().set_format_code(code.clone());
+                }
+            }
+            let mut x = reload(&x);
+            let style = if is == 999999 {
+                let mut st = umya_spreadsheet::Style::default();
+                st.get_number_format_mut().set_format_code(cs.clone());
+                st
+            } else {
+                let mut z = umya_spreadsheet::new_file();
+                {
+                    let ws = z.get_sheet_by_name_mut("Sheet1").unwrap();
+                    for k in 176..=is {
+                        let c = ws.get_cell_mut((1, k - 175));
+                        c.set_value_number(2.5);
+                        let code = if k == is { cs.clone() } else { format!("\"zz{}\"0.0", k) };
+                        c.get_style_mut().get_number_format_mut().set_format_code(code);
+                    }
+                }
+                let z = reload(&z);
+                z.get_sheet_by_name("Sheet1").unwrap().get_style((1, is - 175)).clone()
+            };
+            {
+                let ws = x.get_sheet_by_name_mut("Sheet1").unwrap();
+                let c = ws.get_cell_mut((1, 3));
+                c.set_value_number(3.5);
+                c.set_style(style);
+            }
+            let back = reload(&x);
+            let ws = back.get_sheet_by_name("Sheet1").unwrap();
+            [3, ia - 175, ib - 175].iter().map(|r| hex(ws.get_style((1, *r)).get_number_format().map(|f| f.get_format_code()).unwrap_or("<none>"))).collect()
+        }
+        "columns_roundtrip" => {
+            // "num,width,hidden,bestfit,styled;..." : column settings of Sheet1, saved and reloaded
+            let spec = unhex(&p[1]);
+            let mut book = umya_spreadsheet::new_file();
+            let show = |book: &umya_spreadsheet::Spreadsheet| {
+                let ws = book.get_sheet_by_name("Sheet1").unwrap();
+                let mut v: Vec<String> = ws.get_column_dimensions().iter().map(|c| format!("{}:w={} h={} bf={} st={}", c.get_col_num(), c.get_width(), *c.get_hidden() as u8, *c.get_best_fit() as u8,
+                    c.get_style().get_number_format().map(|f| f.get_format_code().to_string()).unwrap_or("-".into()))).collect();
+                v.sort_by_key(|t| t.split(':').next().unwrap().parse::<u32>().unwrap());
+                v.join(" ")
+            };
+            {
+                let ws = book.get_sheet_by_name_mut("Sheet1").unwrap();
+                ws.get_cell_mut((1, 1)).set_value_string("x");
+                for item in spec.split(';') {
+                    let f: Vec<&str> = item.split(',').collect();
+                    let c = ws.get_column_dimension_by_number_mut(&f[0].parse::<u32>().unwrap());
+                    c.set_width(f[1].parse::<f64>().unwrap());
+                    c.set_hidden(f[2] == "1");
+                    c.set_best_fit(f[3] == "1");
+                    if f[4] == "1" { c.get_style_mut().get_number_format_mut().set_format_code("0.00"); }
+                }
+            }
+            let before = show(&book);
+            let mut buf: Vec<u8> = Vec::new();
+            umya_spreadsheet::writer::xlsx::write_writer(&book, &mut buf).unwrap();
+            let back = umya_spreadsheet::reader::xlsx::read_reader(std::io::Cursor::new(buf), true).unwrap();
+            vec![hex(&before), hex(&show(&back))]
         }
         "fill_roundtrip" => {
             // "background=..;foreground=.." twice ('-' = absent)
